@@ -119,8 +119,15 @@ TWait == /\ Ev("wait")
                        "ArmedImpliesProgrammed: the manager blocks with a non-empty heap whose kernel timer is not programmed at or before the minimum target">> >>)
          /\ UNCHANGED <<am, kt, ken, tnow, lastrun>>
 
+\* several executions (processes) are validated in one run: a reset record separates them
+TReset == /\ Ev("reset")
+          /\ am' = [t \in TT |-> Unarmed]
+          /\ kt' = [c \in CC |-> INF] /\ ken' = [c \in CC |-> FALSE]
+          /\ tnow' = [c \in CC |-> 0] /\ lastrun' = [t |-> 0, tgt |-> 0, now |-> 0]
+          /\ UNCHANGED bad
+
 TNext == /\ l' = l + 1
-         /\ (TArm \/ TDisarm \/ TRun \/ TFire \/ TProg \/ TKprog \/ TKevent \/ TWait)
+         /\ (TArm \/ TDisarm \/ TRun \/ TFire \/ TProg \/ TKprog \/ TKevent \/ TWait \/ TReset)
 TSpec == TInit /\ [][TNext]_tvars
 
 NoLawBroken == bad[1] # "LAW"
